@@ -100,3 +100,25 @@ impl GType {
         }
     }
 }
+
+impl Gate {
+    fn add_spider(g: &mut Vec<u8>, qs: &mut Vec<usize>, q: usize, ty: crate::graph::VType, et: crate::graph::EType, phase: i64) -> Option<usize> {
+        None
+    }
+    /// control: CZ between two Z spiders with a plain edge
+    pub fn add_to_graph_ctl(&self, graph: &mut Vec<u8>, qs: &mut Vec<usize>) {
+        use crate::graph::{EType, VType};
+        match self.t {
+            CZ => {
+                if let (Some(v1), Some(v2)) = (
+                    Gate::add_spider(graph, qs, self.qs[0], VType::Z, EType::N, 0),
+                    Gate::add_spider(graph, qs, self.qs[1], VType::Z, EType::N, 0),
+                ) {
+                    crate::gate::add_edge(graph, v1, v2);
+                }
+            }
+            _ => {}
+        }
+    }
+}
+pub fn add_edge(g: &mut Vec<u8>, a: usize, b: usize) {}
